@@ -16,8 +16,9 @@ RULE = ('Hypothesis rule-based state machines: state = one batch of parse result
 
 FORMATS = {
     'en': ['auto', 'auto_extended', 'deriv', 'xml', 'conll', 'html', 'prolog', 'jigg_xml', 'ptb', 'json',
-           'direct:to_jigg_xml', 'direct:xml_of', 'direct:json_full'],
-    'ja': ['auto', 'deriv', 'ja', 'conll', 'html', 'jigg_xml', 'ptb', 'json', 'prolog', 'direct:to_jigg_xml'],
+           'direct:to_jigg_xml', 'direct:xml_of', 'direct:json_full', 'direct:json_of'],
+    'ja': ['auto', 'deriv', 'ja', 'conll', 'html', 'jigg_xml', 'ptb', 'json', 'prolog', 'direct:to_jigg_xml',
+           'direct:json_of'],
 }
 
 
@@ -38,6 +39,10 @@ def render(batch, fmt):
         if fmt == 'direct:xml_of':
             from depccg.printer.xml import xml_of
             return etree.tostring(xml_of(batch), encoding='unicode')
+        if fmt == 'direct:json_of':
+            # the encoder behind format 'json', called the way to_string calls it (the caller adds the score)
+            from depccg.printer.my_json import json_of
+            return repr([[json_of(st.tree) for st in sent] for sent in batch])
         if fmt == 'direct:json_full':
             from depccg.printer.my_json import json_of
             return repr([[json_of(st.tree, full=True) for st in sent] for sent in batch])
